@@ -213,6 +213,10 @@ func runC14(c *Ctx) {
 		c.Check(f.OK, "R14e", f.Key, f.Pos, "no use after Put", "the object is still used after it was put back into the pool ("+f.Detail+"): the pool can hand it to a concurrent request in between, so two requests write through one object")
 	}
 	c.runControl("R14e pool use-after-Put", "pool.Bad", poolUseAfterPut)
+	for _, f := range poolEscapes(p) {
+		c.Check(f.OK, "R14e", f.Key, f.Pos, "the pooled memory is not handed out elsewhere", f.Detail)
+	}
+	c.runControl("R14e pooled memory also returned", "hasher).release", poolEscapes)
 	sites, shares := goroutineShares(p)
 	badGo := map[*ssa.Go][]goShare{}
 	for _, s := range shares {
